@@ -178,3 +178,18 @@ def install(g, pid, *, text, note, technique, quick, thorough, mons=None, forces
 HIST_NOTE = ("History theorems are about the hand-written executable history machine (coq/Model/Hist.v), which REBUILDS every generation from the sources named by the events "
              "(carried from the previous generation / evaluated by the deme since it was completed / the seed); the tie: every recorded run is converted (genomes interned, exact "
              "bit equality; hv/histmachine.py) and replayed by vm_compute, an individual that has no such source makes the trace inexpressible and is reported as the witness.")
+
+
+def make_sessions(pid, force=None, quick=16, thorough=300, mons=None):
+    """extra check: sessions of three trees in one process sharing one sprout mechanism (and one stop-condition object when the
+    configurations agree), later ones relying on option defaults; the property's monitor is applied to every run (hv/session.py)"""
+    from .. import session
+
+    def sessions(ctx, results):
+        r = session.run_sessions(ctx, ctx.n(quick, thorough), mons or [pid], force)
+        return {"violations": [v for v in r["violations"] if v["key"].startswith(pid)], "evaluations": r["evaluations"], "distinct_nontrivial": 0, "notes": {"session_runs": r["evaluations"]}}
+
+    def _replay(ctx, data):
+        return session.replay_session(ctx, data, mons or [pid])
+    sessions.replay_name, sessions.replay = "session", _replay
+    return sessions
